@@ -10,26 +10,32 @@
 
 // ---- std ------------------------------------------------------------------------
 //@trusted T2 Vec::extend(iter) appends the items the iterator yields; for an array [T; N] and a Vec<T> these are its elements in order
-pub uninterp spec fn iter_seq<T, I: IntoIterator<Item = T>>(i: I) -> Seq<T>;
-#[verifier::external_body]
-pub broadcast proof fn axiom_iter_seq_array<T, const N: usize>(a: [T; N])
-    ensures #[trigger] iter_seq::<T, [T; N]>(a) == a@ { }
-#[verifier::external_body]
-pub broadcast proof fn axiom_iter_seq_vec<T>(a: Vec<T>)
-    ensures #[trigger] iter_seq::<T, Vec<T>>(a) == a@ { }
-pub assume_specification<T, A: core::alloc::Allocator, I: IntoIterator<Item = T>>[ <Vec<T, A> as Extend<T>>::extend ](v: &mut Vec<T, A>, i: I)
-    ensures final(v)@ == old(v)@ + iter_seq::<T, I>(i);
-
 //@trusted T2 <Vec<T> as AsRef<[T]>>::as_ref is the slice of all elements
-pub assume_specification<T, A: core::alloc::Allocator>[ <Vec<T, A> as AsRef<[T]>>::as_ref ](v: &Vec<T, A>) -> (r: &[T])
-    ensures r@ == v@;
-
 //@trusted T2 `[u8; N] == [u8]` (core::array::equality) holds iff both have the same elements
-#[verifier::external_body]
-pub broadcast proof fn axiom_array_slice_eq_u8<const N: usize>(a: &[u8; N], b: &[u8])
-    ensures #[trigger] vstd::std_specs::cmp::PartialEqSpec::eq_spec(a, b) == (a@ == b@) { }
-
-broadcast use {axiom_iter_seq_array, axiom_iter_seq_vec, axiom_array_slice_eq_u8};
+// (the axioms live in a sub-module because Verus allows one module-level `broadcast use` per module and
+//  rejects it in the module that defines the broadcast lemmas)
+pub mod std_axioms {
+    use vstd::prelude::*;
+    pub uninterp spec fn iter_seq<T, I: IntoIterator<Item = T>>(i: I) -> Seq<T>;
+    #[verifier::external_body]
+    pub broadcast proof fn axiom_iter_seq_array<T, const N: usize>(a: [T; N])
+        ensures #[trigger] iter_seq::<T, [T; N]>(a) == a@ { }
+    #[verifier::external_body]
+    pub broadcast proof fn axiom_iter_seq_vec<T>(a: Vec<T>)
+        ensures #[trigger] iter_seq::<T, Vec<T>>(a) == a@ { }
+    #[verifier::external_body]
+    pub broadcast proof fn axiom_array_slice_eq_u8<const N: usize>(a: &[u8; N], b: &[u8])
+        ensures #[trigger] vstd::std_specs::cmp::PartialEqSpec::eq_spec(a, b) == (a@ == b@) { }
+    pub uninterp spec fn writer_may_fail<W>() -> bool;
+    #[verifier::external_body]
+    pub broadcast proof fn axiom_vec_writer_never_fails()
+        ensures !(#[trigger] writer_may_fail::<Vec<u8>>()) { }
+    pub assume_specification<T, A: core::alloc::Allocator, I: IntoIterator<Item = T>>[ <Vec<T, A> as Extend<T>>::extend ](v: &mut Vec<T, A>, i: I)
+        ensures final(v)@ == old(v)@ + iter_seq::<T, I>(i);
+    pub assume_specification<T, A: core::alloc::Allocator>[ <Vec<T, A> as AsRef<[T]>>::as_ref ](v: &Vec<T, A>) -> (r: &[T])
+        ensures r@ == v@;
+}
+broadcast use {std_axioms::axiom_iter_seq_array, std_axioms::axiom_iter_seq_vec, std_axioms::axiom_array_slice_eq_u8, std_axioms::axiom_vec_writer_never_fails};
 
 //@trusted T2 u16/u32::to_be_bytes are the big-endian encoders (free-function form: the inherent methods have an unevaluated const in their return type which assume_specification cannot name)
 #[verifier::external_body]
@@ -52,7 +58,7 @@ impl core::convert::From<core::num::TryFromIntError> for errors::Error {
     fn from(e: core::num::TryFromIntError) -> (r: errors::Error) { unimplemented!() }
 }
 
-//@trusted T2 impl io::Write for Vec<u8> appends and never fails
+//@trusted T2 impl io::Write for Vec<u8>: out() is the content of the vector; the methods satisfy the Write contract of shims/io.rs
 impl io::Write for Vec<u8> {
     open spec fn out(&self) -> Seq<u8> { self@ }
     #[verifier::external_body]
@@ -173,15 +179,22 @@ pub struct KeyId(pub [u8; 8]);
 pub struct SmallVec<A> { v: core::marker::PhantomData<A> }
 
 // ---- serialisation ----------------------------------------------------------------
-//@trusted T4 Serialize::to_writer appends the value's serialisation ser() to the writer on Ok; nothing is known after Err.  Subpacket::ser() (length octets, type octet with critical bit, body) is an uninterpreted function of the subpacket: its byte-level correctness is the subject of the subpacket serialisation units, not of this one
+//@trusted T4 Serialize::to_writer appends the value's serialisation ser() to the writer on Ok; nothing is known about the writer after Err.  It fails only if the value itself cannot be serialised (!ser_ok(), e.g. an inconsistent length field) or the writer fails; a Vec<u8> writer never fails.  Subpacket::ser() (length octets, type octet with critical bit, body) is an uninterpreted function of the subpacket: its byte-level correctness is the subject of the subpacket serialisation units, not of this one
+pub use std_axioms::writer_may_fail;
 pub trait Serialize {
     spec fn ser(&self) -> Seq<u8>;
+    spec fn ser_ok(&self) -> bool;
     fn to_writer<W: io::Write>(&self, w: &mut W) -> (r: errors::Result<()>)
-        ensures match r { Ok(_) => final(w).out() == old(w).out() + self.ser(), Err(_) => true };
+        ensures match r {
+            Ok(_) => final(w).out() == old(w).out() + self.ser(),
+            Err(_) => !self.ser_ok() || writer_may_fail::<W>(),
+        };
 }
 pub uninterp spec fn subpacket_ser(p: Subpacket) -> Seq<u8>;
+pub uninterp spec fn subpacket_ser_ok(p: Subpacket) -> bool;
 impl Serialize for Subpacket {
     open spec fn ser(&self) -> Seq<u8> { subpacket_ser(*self) }
+    open spec fn ser_ok(&self) -> bool { subpacket_ser_ok(*self) }
     #[verifier::external_body]
     fn to_writer<W: io::Write>(&self, w: &mut W) -> (r: errors::Result<()>) { unimplemented!() }
 }
